@@ -31,8 +31,12 @@ type Finding struct {
 	Match string `json:"match,omitempty"`
 	// MaxBad bounds an enumerated obligation's recorded failure: the finding covers the run only while the harness
 	// reports at most this many differing pairs ("(N of M pairs differ)"); more is a different violation
-	MaxBad int `json:"max_bad,omitempty"`
+	MaxBad         int `json:"max_bad,omitempty"`
+	MaxBadThorough int `json:"max_bad_thorough,omitempty"` // the same bound for the wider grids of the thorough tier
 }
+
+// harnessThorough widens the grids of the bounded API harnesses (thorough tier)
+var harnessThorough bool
 
 var evalsRe = regexp.MustCompile(`evals=(\d+)`)
 
@@ -42,12 +46,15 @@ func (f *Finding) covers(output string) bool {
 	if f.Match != "" && !strings.Contains(output, f.Match) {
 		return false
 	}
-	if f.MaxBad > 0 {
+	if limit := f.MaxBad; limit > 0 {
+		if harnessThorough && f.MaxBadThorough > 0 {
+			limit = f.MaxBadThorough
+		}
 		m := pairsDifferRe.FindStringSubmatch(output)
 		if m == nil {
 			return false
 		}
-		if n, _ := strconv.Atoi(m[1]); n > f.MaxBad {
+		if n, _ := strconv.Atoi(m[1]); n > limit {
 			return false
 		}
 	}
@@ -215,6 +222,7 @@ func checkCmd(args []string) int {
 	}
 	vcs := w.propVCs(prop, drv.safe)
 	if drv.extra != nil {
+		harnessThorough = *tier == "thorough"
 		vcs = append(vcs, drv.extra(w, *tier)...)
 	}
 	timeout := 10 * time.Second
